@@ -7,8 +7,15 @@
    inverted) traced from any row has a gap of exactly one letter (a pending deduction) or closes
    on two different rows (a contradiction).  `Derive(T, from, to, g)` joins from -g-> to and takes
    the deductive closure: the least closed extension, or Fail if the closure is contradictory.
-   The closure is unique (deductions are forced), so an implementation's queue discipline cannot
-   matter: whatever it returns must be exactly Derive.  Children of a node: the first undefined
+   The closure is unique (deductions are forced).  The code does not compute it by a global fixed
+   point but by a queue (`DeriveQ` below, a transcription of derived_table): rows are scanned when
+   they are queued — the row of the new edge and the head of every deduction.  Every relator
+   instance that a new entry can complete passes through the row where the entry was made, EXCEPT
+   an instance of a relator of length one, which sits on a single row: a fresh row's loop under a
+   trivial generator is deduced only when that row is scanned later.  Hence the lemma checked by
+   MC_LowIndex at every node and candidate edge: DeriveQ = Derive when no relator has length one
+   (`QueueIsClosure`), and with such relators the lazily closed tree (`ChildrenQ`) still has valid
+   leaves and reaches every class (configuration U).  Children of a node: the first undefined
    entry (k, g) joined to every row k..n-1 and to one new row (bounded by the index bound), kept
    if derivable; an implementation may prune further only by canonicity.  Leaves are complete
    tables. *)
@@ -47,6 +54,26 @@ Close(T, X) ==
 Derive(T, X, from, to, g) ==
    IF Entry(T, from, g) # Undef \/ Entry(T, to, -g) # Undef THEN Fail
    ELSE Close(Join(T, from, to, g), X)
+\* the code's queue discipline (derived_table): scan every expanded relator both ways at the queued row; a gap of one
+\* letter is filled at once and its head queued; a closed instance on two different rows is a contradiction
+RECURSIVE QScan(_,_,_,_,_)
+QScan(T, xs, i, row, q) == IF i > Len(xs) THEN <<T, q>> ELSE
+   LET s == Scan(T, xs[i], row) IN
+   IF s.gap = 1
+   THEN IF Entry(T, s.head, s.letter) # Undef \/ Entry(T, s.tail, -s.letter) # Undef THEN <<Fail, q>>
+        ELSE QScan(Join(T, s.head, s.tail, s.letter), xs, i + 1, row, Append(q, s.head))
+   ELSE IF s.gap = 0 /\ s.head # s.tail THEN <<Fail, q>>
+   ELSE QScan(T, xs, i + 1, row, q)
+RECURSIVE QLoop(_,_,_)
+QLoop(T, xs, q) == IF T = Fail THEN Fail ELSE IF q = <<>> THEN T ELSE
+   LET r == QScan(T, xs, 1, Head(q), Tail(q)) IN QLoop(r[1], xs, r[2])
+DeriveQ(T, X, from, to, g) ==
+   IF Entry(T, from, g) # Undef \/ Entry(T, to, -g) # Undef THEN Fail
+   ELSE QLoop(Join(T, from, to, g), SetToSortSeq(X, WLess), <<from>>)      \* the code keeps the expanded relators in a BTreeSet: the library's word order
+HasUnitRelator(X) == \E w \in X : Len(w) = 1
+\* A is defined wherever B is and agrees with it there
+ExtendsT(A, B) == /\ A.gens = B.gens /\ NRows(A) = NRows(B)
+                  /\ \A r \in RowsOf(B), j \in 1..(2 * B.gens) : B.img[r + 1][j] # Undef => A.img[r + 1][j] = B.img[r + 1][j]
 \* first undefined entry in row-major order, generators 1..k then -1..-k
 GenOrder(T) == [j \in 1..(2 * T.gens) |-> IF j <= T.gens THEN j ELSE T.gens - j]
 FirstFree(T) == LET cand == {p \in RowsOf(T) \X (1..(2 * T.gens)) : T.img[p[1] + 1][p[2]] = Undef} IN
@@ -60,5 +87,11 @@ ChildrenAll(T, X, maxRows) ==
    LET ff == FirstFree(T) IN IF ff[1] = -1 THEN {} ELSE
    LET limit == IF NRows(T) + 1 < maxRows THEN NRows(T) + 1 ELSE maxRows
        cand(pos) == IF pos = NRows(T) THEN Derive(AddRow(T), X, ff[1], pos, ff[2]) ELSE Derive(T, X, ff[1], pos, ff[2])
+   IN {cand(pos) : pos \in ff[1]..(limit - 1)} \ {Fail}
+\* the same with the code's lazy closure
+ChildrenQ(T, X, maxRows) ==
+   LET ff == FirstFree(T) IN IF ff[1] = -1 THEN {} ELSE
+   LET limit == IF NRows(T) + 1 < maxRows THEN NRows(T) + 1 ELSE maxRows
+       cand(pos) == IF pos = NRows(T) THEN DeriveQ(AddRow(T), X, ff[1], pos, ff[2]) ELSE DeriveQ(T, X, ff[1], pos, ff[2])
    IN {cand(pos) : pos \in ff[1]..(limit - 1)} \ {Fail}
 =============================================================================
